@@ -204,7 +204,29 @@ func (g *Gen) multiAssignOn(k Kind, a, b *Var) []Stmt {
 		}
 		return e
 	}
-	switch g.R.Intn(6) {
+	switch g.R.Intn(7) {
+	case 6:
+		// surplus right-hand sides are evaluated before any store too: a call
+		// among them still sees the old values of the (local) targets
+		x, y, peek := g.fresh("x"), g.fresh("y"), g.fresh("peek")
+		var as *SAssign
+		switch g.R.Intn(4) {
+		case 0:
+			as = &SAssign{LHS: []Expr{N(x)}, RHS: []Expr{Num(10), Call(N(peek))}}
+		case 1:
+			as = &SAssign{LHS: []Expr{N(x), N(y)}, RHS: []Expr{Num(10), Num(20), Call(N(peek))}}
+		case 2:
+			as = &SAssign{LHS: []Expr{N(x), N(y)}, RHS: []Expr{Num(10), Call(N(peek)), Call(N(peek)), a.Ref()}}
+		default:
+			as = &SAssign{LHS: []Expr{N(y), N(x)}, RHS: []Expr{Call(N(peek)), b.Ref(), Call(N(peek))}}
+		}
+		g.cover("multiassign:surplus-values-observe-targets")
+		return []Stmt{
+			&SLocal{Names: []string{x, y}, Exprs: []Expr{Num(1), Num(2)}},
+			&SLocalFunc{Name: peek, F: &Func{Body: Blk(CallSN("emit", Str("peek"), N(x), N(y)), Return(Num(9)))}},
+			as,
+			CallSN("emit", N(x), N(y)),
+		}
 	case 0: // swap
 		return []Stmt{&SAssign{LHS: []Expr{a.Ref(), b.Ref()}, RHS: []Expr{b.Ref(), a.Ref()}}}
 	case 1: // a, b = b, a <op> b
@@ -578,7 +600,54 @@ func (g *Gen) numForStmt() []Stmt {
 func (g *Gen) genForStmt() []Stmt {
 	g.stmts++
 	var pre []Stmt
-	switch g.R.Intn(4) {
+	switch g.R.Intn(5) {
+	case 4:
+		// the first expression of the list is an operator expression over calls:
+		// its operands need temporaries of their own above the control slots
+		mkit, pick, holder, mk := g.fresh("mkit"), g.fresh("pick"), g.fresh("holder"), g.fresh("mk")
+		i, v := g.fresh("i"), g.fresh("x")
+		s, cvar := g.fresh("s"), g.fresh("c")
+		iter := Fn([]string{s, cvar}, false, Blk(
+			&SIf{Conds: []Expr{Bin("<", N(cvar), N(s))}, Blocks: []*Block{Blk(Return(Bin("+", N(cvar), Num(1)), Bin("*", N(cvar), N(cvar))))}},
+		))
+		pre = []Stmt{
+			&SLocalFunc{Name: mkit, F: &Func{Body: Blk(Return(iter))}},
+			&SLocalFunc{Name: pick, F: &Func{Params: []string{"a"}, Body: Blk(CallSN("emit", Str("pick"), CallN("type", N("a"))), Return(N("a")))}},
+			&SLocalFunc{Name: holder, F: &Func{Body: Blk(Return(&ETable{Items: []TItem{{Kind: TName, Name: "it", Val: Call(N(mkit))}}}))}},
+			&SLocalFunc{Name: mk, F: &Func{Params: []string{"n"}, Body: Blk(Return(CallN("setmetatable",
+				&ETable{Items: []TItem{{Kind: TName, Name: "n", Val: N("n")}}},
+				&ETable{Items: []TItem{
+					{Kind: TName, Name: "__sub", Val: Fn([]string{"p", "q"}, false, Blk(CallSN("emit", Str("sub"), Dot(N("p"), "n"), Dot(N("q"), "n")), Return(Call(N(mkit)))))},
+					{Kind: TName, Name: "__concat", Val: Fn([]string{"p", "q"}, false, Blk(CallSN("emit", Str("concat"), CallN("type", N("p")), CallN("type", N("q"))), Return(Call(N(mkit)))))},
+				}})))}},
+		}
+		var first Expr
+		switch g.R.Intn(9) {
+		case 0:
+			first = Bin("or", Call(N(pick), &EFalse{}), Call(N(mkit)))
+		case 1:
+			first = Bin("and", Call(N(mkit)), Call(N(pick), Call(N(mkit))))
+		case 2:
+			first = &EParen{X: Call(N(mkit))}
+		case 3:
+			first = Dot(Call(N(holder)), "it")
+		case 4:
+			first = Idx(Call(N(holder)), Call(N(pick), Str("it")))
+		case 5:
+			first = Bin("-", Call(N(mk), Str("A")), Call(N(mk), Str("B")))
+		case 6:
+			first = Bin("..", Call(N(mk), Str("A")), Str("tail"))
+		case 7:
+			first = Bin("..", Call(N(pick), Str("head")), Call(N(mk), Str("B")))
+		default:
+			first = Call(Call(N(pick), N(mkit)))
+		}
+		rest := []Expr{Num(float64(1 + g.R.Intn(3))), Num(0)}
+		if g.R.Intn(2) == 0 {
+			rest = []Expr{Call(N(pick), Num(float64(1+g.R.Intn(3)))), Call(N(pick), Num(0))}
+		}
+		g.cover("genfor:operator-expression-first")
+		return append(pre, &SGenFor{Names: []string{i, v}, Exprs: append([]Expr{first}, rest...), Body: Blk(CallSN("emit", N(i), N(v)))})
 	case 0, 1: // ipairs over a list
 		lv := g.pickVar(KList, false, false)
 		if lv == nil {
